@@ -86,7 +86,7 @@ class GroupCoordinatorSim:
                 seen[f"{topic}-{p}"] = off
                 ps.append((p, off, meta, code))
             topics.append((topic, ps))
-        self.log.emit("OffsetFetchReply", node=ctx.node, group=gid, code=code, offsets=seen, req=ctx.no)
+        self.log.emit("OffsetFetchReply", node=ctx.node, group=gid, code=code, offsets=seen, req=ctx.no, client=ctx.client_id)
         if v < 2:
             return R(topics=topics)
         if v == 2:
@@ -97,7 +97,8 @@ class GroupCoordinatorSim:
         R = ctx.cls.RESPONSE_TYPE
         req, v = ctx.req, ctx.v
         topics = [(t, [(p, -1, "", code) for p in ps]) for t, ps in (req.topics or [])]
-        self.log.emit("OffsetFetchReply", node=ctx.node, group=req.consumer_group, code=code, offsets={}, req=ctx.no)
+        self.log.emit("OffsetFetchReply", node=ctx.node, group=req.consumer_group, code=code, offsets={}, req=ctx.no,
+                      client=ctx.client_id)
         if v < 2:
             return R(topics=topics)
         if v == 2:
@@ -134,7 +135,7 @@ class GroupCoordinatorSim:
         if code == 0 and mid in g.members:
             self._touch(g, g.members[mid])
         self.log.emit("OffsetCommitReply", node=ctx.node, group=gid, member=mid, gen=gen, code=code, offsets=offs,
-                      req=ctx.no, state=g.state, ggen=g.generation)
+                      req=ctx.no, state=g.state, ggen=g.generation, client=ctx.client_id)
         topics = [(t, [(pi[0], code) for pi in ps]) for t, ps in req.topics]
         return R(topics=topics) if v < 3 else R(throttle_time_ms=0, topics=topics)
 
@@ -144,24 +145,349 @@ class GroupCoordinatorSim:
         offs = {f"{t}-{pi[0]}": pi[1] for t, ps in req.topics for pi in ps}
         self.log.emit("OffsetCommitReply", node=ctx.node, group=req.consumer_group,
                       member=getattr(req, "consumer_id", ""), gen=getattr(req, "consumer_group_generation_id", -1),
-                      code=code, offsets=offs, req=ctx.no, state="", ggen=-1)
+                      code=code, offsets=offs, req=ctx.no, state="", ggen=-1, client=ctx.client_id)
         topics = [(t, [(pi[0], code) for pi in ps]) for t, ps in req.topics]
         return R(topics=topics) if v < 3 else R(throttle_time_ms=0, topics=topics)
 
-    # ---- membership: filled in below (JoinGroup / SyncGroup / Heartbeat / LeaveGroup) --------
+    # ---- membership (Kafka's GroupCoordinator) -------------------------------------------------------
     def _touch(self, g, m):
+        """(re)start the member's session timer"""
         m.deadline = self.now() + m.session_timeout / 1000
+        if m.timer is not None:
+            m.timer.cancel()
+        m.timer = self.c.loop.call_at(m.deadline, self._expire, g, m.id, m.deadline)
+
+    def _expire(self, g, mid, deadline):
+        m = g.members.get(mid)
+        if m is None or m.deadline != deadline:
+            return
+        if m.join_ctx is not None:       # a member waiting in the join barrier is kept alive
+            self._touch(g, m)
+            return
+        self.log.emit("SessionExpired", group=g.id, member=mid, gen=g.generation)
+        self._remove_member(g, mid)
+
+    def _remove_member(self, g, mid):
+        m = g.members.pop(mid, None)
+        if m is None:
+            return
+        if m.timer is not None:
+            m.timer.cancel()
+        if m.sync_ctx is not None:
+            self._reply_sync(g, m, sc.UNKNOWN_MEMBER_ID)
+        if g.leader == mid:
+            g.leader = next(iter(g.members), None)
+        if g.state in ("Stable", "CompletingRebalance"):
+            self._prepare_rebalance(g)
+        elif g.state == "PreparingRebalance":
+            self._maybe_complete_join(g)
+
+    def _prepare_rebalance(self, g):
+        if g.state == "CompletingRebalance":
+            for m in g.members.values():
+                if m.sync_ctx is not None:
+                    self._reply_sync(g, m, sc.REBALANCE_IN_PROGRESS)
+        was_empty = g.state == "Empty"
+        g.state = "PreparingRebalance"
+        self.log.emit("GroupState", group=g.id, state=g.state, gen=g.generation, members=sorted(g.members))
+        if g.join_timer is not None:
+            g.join_timer.cancel()
+        timeout = max([m.rebalance_timeout for m in g.members.values()] or [0]) / 1000
+        if was_empty and self.initial_delay:
+            timeout = self.initial_delay
+        g.join_timer = self.c.loop.call_later(timeout, self._join_timeout, g)
+        g.join_deadline_gen = g.generation
+
+    def _join_timeout(self, g):
+        if g.state != "PreparingRebalance":
+            return
+        # members that did not rejoin within the rebalance timeout are removed
+        for mid in [mid for mid, m in g.members.items() if m.join_ctx is None]:
+            self.log.emit("RebalanceTimeoutKick", group=g.id, member=mid)
+            m = g.members.pop(mid)
+            if m.timer is not None:
+                m.timer.cancel()
+            if g.leader == mid:
+                g.leader = None
+        self._complete_join(g)
+
+    def _maybe_complete_join(self, g):
+        if g.state == "PreparingRebalance" and g.members and all(m.join_ctx is not None for m in g.members.values()):
+            self._complete_join(g)
+        elif g.state == "PreparingRebalance" and not g.members:
+            self._complete_join(g)
+
+    def _complete_join(self, g):
+        if g.join_timer is not None:
+            g.join_timer.cancel()
+            g.join_timer = None
+        if not g.members:
+            g.generation += 1
+            g.state = "Empty"
+            g.leader = g.protocol = None
+            self.log.emit("GroupState", group=g.id, state=g.state, gen=g.generation, members=[])
+            return
+        g.generation += 1
+        # protocol vote: candidates = protocols every member supports; each member votes for its
+        # first supported candidate; most votes wins
+        cand = None
+        for m in g.members.values():
+            names = [n for n, _ in m.protocols]
+            cand = set(names) if cand is None else cand & set(names)
+        votes = {}
+        for m in g.members.values():
+            for n, _ in m.protocols:
+                if n in cand:
+                    votes[n] = votes.get(n, 0) + 1
+                    break
+        g.protocol = max(sorted(votes), key=lambda n: votes[n])
+        if g.leader not in g.members:
+            g.leader = next(iter(g.members))
+        g.state = "CompletingRebalance"
+        self.log.emit("GroupState", group=g.id, state=g.state, gen=g.generation, members=sorted(g.members),
+                      leader=g.leader, protocol=g.protocol)
+        for m in g.members.values():
+            m.assignment = b""
+            ctx, m.join_ctx = m.join_ctx, None
+            self._touch(g, m)
+            self._reply_join(g, m, ctx, 0)
+
+    def _reply_join(self, g, m, ctx, code, member_id=None):
+        R = ctx.cls.RESPONSE_TYPE
+        v = ctx.v
+        members = []
+        if code == 0 and m is not None and g.leader == m.id:
+            for o in g.members.values():
+                md = dict(o.protocols)[g.protocol]
+                members.append((o.id, md) if v < 5 else (o.id, o.instance_id, md))
+        mid = member_id if member_id is not None else (m.id if m is not None else "")
+        self.log.emit("JoinReply", group=g.id, member=mid, code=code, gen=(g.generation if code == 0 else -1),
+                      leader=(g.leader or "") if code == 0 else "", protocol=(g.protocol or "") if code == 0 else "",
+                      nmembers=len(members), req=ctx.no, node=ctx.node, client=ctx.client_id)
+        kw = dict(error_code=code, generation_id=g.generation if code == 0 else -1,
+                  group_protocol=(g.protocol or "") if code == 0 else "", leader_id=(g.leader or "") if code == 0 else "",
+                  member_id=mid, members=members)
+        if v >= 2:
+            kw["throttle_time_ms"] = 0
+        self.c.reply(ctx, R(**kw))
 
     def h_JoinGroup(self, ctx):
-        raise NotImplementedError
+        req, v = ctx.req, ctx.v
+        gid = req.group
+        g = self.group(gid)
+        protos = [(n, bytes(md)) for n, md in req.group_protocols]
+        inst = getattr(req, "group_instance_id", None)
+        self.log.emit("JoinRequest", group=gid, member=req.member_id, protocols=[n for n, _ in protos], v=v,
+                      node=ctx.node, req=ctx.no, client=ctx.client_id)
+        if not self.is_coordinator(ctx, gid):
+            self._reply_join(g, None, ctx, sc.NOT_COORDINATOR, member_id=req.member_id)
+            return DEFER
+        if self.loading:
+            self._reply_join(g, None, ctx, sc.COORDINATOR_LOAD_IN_PROGRESS, member_id=req.member_id)
+            return DEFER
+        mid = req.member_id
+        if mid == "":
+            g.next_member += 1
+            mid = f"{ctx.client_id}-m{g.next_member}"
+            if v >= 4:      # KIP-394: the member must rejoin with the id it was given
+                g.pending_ids.add(mid)
+                self._reply_join(g, None, ctx, sc.MEMBER_ID_REQUIRED, member_id=mid)
+                return DEFER
+        elif mid in g.pending_ids:
+            g.pending_ids.discard(mid)
+        elif mid not in g.members:
+            self._reply_join(g, None, ctx, sc.UNKNOWN_MEMBER_ID, member_id=mid)
+            return DEFER
+        # protocol compatibility with the current members
+        if g.members:
+            common = None
+            for o in g.members.values():
+                names = {n for n, _ in o.protocols}
+                common = names if common is None else common & names
+            if not (common & {n for n, _ in protos}) and not (len(g.members) == 1 and mid in g.members):
+                self._reply_join(g, None, ctx, sc.INCONSISTENT_GROUP_PROTOCOL, member_id=mid)
+                return DEFER
+        m = g.members.get(mid)
+        if m is None:
+            m = Member(mid, protos, req.session_timeout, getattr(req, "rebalance_timeout", req.session_timeout), inst)
+            g.members[mid] = m
+            if g.leader is None:
+                g.leader = mid
+            m.join_ctx = ctx
+            self._touch(g, m)
+            if g.state != "PreparingRebalance":
+                self._prepare_rebalance(g)
+            self._maybe_complete_join(g)
+            return DEFER
+        # known member rejoins
+        changed = m.protocols != protos
+        m.protocols = protos
+        m.session_timeout = req.session_timeout
+        m.rebalance_timeout = getattr(req, "rebalance_timeout", req.session_timeout)
+        if m.join_ctx is not None and m.join_ctx is not ctx:
+            pass            # a previous JoinGroup of this member is superseded (its connection is gone)
+        if g.state == "PreparingRebalance":
+            m.join_ctx = ctx
+            self._touch(g, m)
+            self._maybe_complete_join(g)
+            return DEFER
+        if g.state == "CompletingRebalance" and not changed:
+            self._touch(g, m)
+            self._reply_join(g, m, ctx, 0)       # same generation again
+            return DEFER
+        if g.state == "Stable" and not changed and g.leader != mid:
+            self._touch(g, m)
+            self._reply_join(g, m, ctx, 0)       # follower rejoining a stable group: current generation
+            return DEFER
+        m.join_ctx = ctx
+        self._touch(g, m)
+        self._prepare_rebalance(g)
+        self._maybe_complete_join(g)
+        return DEFER
+
+    def e_JoinGroup(self, ctx, code):
+        R = ctx.cls.RESPONSE_TYPE
+        self.log.emit("JoinRequest", group=ctx.req.group, member=ctx.req.member_id,
+                      protocols=[n for n, _ in ctx.req.group_protocols], v=ctx.v, node=ctx.node, req=ctx.no,
+                      client=ctx.client_id)
+        self.log.emit("JoinReply", group=ctx.req.group, member=ctx.req.member_id, code=code, gen=-1, leader="",
+                      protocol="", nmembers=0, req=ctx.no, node=ctx.node, client=ctx.client_id)
+        kw = dict(error_code=code, generation_id=-1, group_protocol="", leader_id="", member_id=ctx.req.member_id, members=[])
+        if ctx.v >= 2:
+            kw["throttle_time_ms"] = 0
+        return R(**kw)
+
+    def _reply_sync(self, g, m, code):
+        ctx, m.sync_ctx = m.sync_ctx, None
+        if ctx is None:
+            return
+        R = ctx.cls.RESPONSE_TYPE
+        self.log.emit("SyncReply", group=g.id, member=m.id, code=code, gen=g.generation, req=ctx.no, node=ctx.node,
+                      raw=(m.assignment if code == 0 else b""), client=ctx.client_id)
+        kw = dict(error_code=code, member_assignment=m.assignment if code == 0 else b"")
+        if ctx.v >= 1:
+            kw["throttle_time_ms"] = 0
+        self.c.reply(ctx, R(**kw))
+
+    def _sync_error(self, ctx, gid, mid, code, gen):
+        R = ctx.cls.RESPONSE_TYPE
+        self.log.emit("SyncReply", group=gid, member=mid, code=code, gen=gen, req=ctx.no, node=ctx.node, raw=b"",
+                      client=ctx.client_id)
+        kw = dict(error_code=code, member_assignment=b"")
+        if ctx.v >= 1:
+            kw["throttle_time_ms"] = 0
+        return R(**kw)
 
     def h_SyncGroup(self, ctx):
-        raise NotImplementedError
+        req = ctx.req
+        gid, mid, gen = req.group, req.member_id, req.generation_id
+        g = self.group(gid)
+        self.log.emit("SyncRequest", group=gid, member=mid, gen=gen, nassign=len(req.group_assignment), node=ctx.node,
+                      req=ctx.no, client=ctx.client_id)
+        if not self.is_coordinator(ctx, gid):
+            return self._sync_error(ctx, gid, mid, sc.NOT_COORDINATOR, gen)
+        if mid not in g.members:
+            return self._sync_error(ctx, gid, mid, sc.UNKNOWN_MEMBER_ID, gen)
+        if gen != g.generation:
+            return self._sync_error(ctx, gid, mid, sc.ILLEGAL_GENERATION, gen)
+        m = g.members[mid]
+        if g.state in ("Empty", "PreparingRebalance"):
+            return self._sync_error(ctx, gid, mid, sc.REBALANCE_IN_PROGRESS if g.state != "Empty" else sc.UNKNOWN_MEMBER_ID, gen)
+        self._touch(g, m)
+        if g.state == "Stable":
+            m.sync_ctx = ctx
+            self._reply_sync(g, m, 0)
+            return DEFER
+        # CompletingRebalance
+        m.sync_ctx = ctx
+        if mid == g.leader:
+            asg = {a[0]: bytes(a[1]) for a in req.group_assignment}
+            for o in g.members.values():
+                o.assignment = asg.get(o.id, b"")
+            g.state = "Stable"
+            self.log.emit("GroupState", group=g.id, state=g.state, gen=g.generation, members=sorted(g.members),
+                          leader=g.leader, protocol=g.protocol)
+            for o in list(g.members.values()):
+                if o.sync_ctx is not None:
+                    self._touch(g, o)
+                    self._reply_sync(g, o, 0)
+        return DEFER
+
+    def e_SyncGroup(self, ctx, code):
+        self.log.emit("SyncRequest", group=ctx.req.group, member=ctx.req.member_id, gen=ctx.req.generation_id,
+                      nassign=len(ctx.req.group_assignment), node=ctx.node, req=ctx.no, client=ctx.client_id)
+        return self._sync_error(ctx, ctx.req.group, ctx.req.member_id, code, ctx.req.generation_id)
+
+    def _hb_reply(self, ctx, code):
+        R = ctx.cls.RESPONSE_TYPE
+        req = ctx.req
+        self.log.emit("HeartbeatReply", group=req.group, member=req.member_id, gen=req.generation_id, code=code,
+                      node=ctx.node, req=ctx.no, client=ctx.client_id)
+        return R(error_code=code) if ctx.v < 1 else R(throttle_time_ms=0, error_code=code)
 
     def h_Heartbeat(self, ctx):
-        raise NotImplementedError
+        req = ctx.req
+        g = self.group(req.group)
+        if not self.is_coordinator(ctx, req.group):
+            return self._hb_reply(ctx, sc.NOT_COORDINATOR)
+        if self.loading:
+            return self._hb_reply(ctx, sc.COORDINATOR_LOAD_IN_PROGRESS)
+        m = g.members.get(req.member_id)
+        if m is None:
+            return self._hb_reply(ctx, sc.UNKNOWN_MEMBER_ID)
+        if req.generation_id != g.generation:
+            return self._hb_reply(ctx, sc.ILLEGAL_GENERATION)
+        if g.state in ("PreparingRebalance", "CompletingRebalance"):
+            self._touch(g, m)
+            return self._hb_reply(ctx, sc.REBALANCE_IN_PROGRESS)
+        self._touch(g, m)
+        return self._hb_reply(ctx, 0)
+
+    def e_Heartbeat(self, ctx, code):
+        return self._hb_reply(ctx, code)
 
     def h_LeaveGroup(self, ctx):
-        raise NotImplementedError
+        R = ctx.cls.RESPONSE_TYPE
+        req = ctx.req
+        g = self.group(req.group)
+        code = 0
+        if not self.is_coordinator(ctx, req.group):
+            code = sc.NOT_COORDINATOR
+        elif req.member_id not in g.members:
+            code = sc.UNKNOWN_MEMBER_ID
+        self.log.emit("LeaveGroup", group=req.group, member=req.member_id, code=code, node=ctx.node, req=ctx.no,
+                      client=ctx.client_id)
+        if code == 0:
+            self._remove_member(g, req.member_id)
+        return R(error_code=code) if ctx.v < 1 else R(throttle_time_ms=0, error_code=code)
 
-    e_JoinGroup = e_SyncGroup = e_Heartbeat = e_LeaveGroup = None
+    def e_LeaveGroup(self, ctx, code):
+        R = ctx.cls.RESPONSE_TYPE
+        self.log.emit("LeaveGroup", group=ctx.req.group, member=ctx.req.member_id, code=code, node=ctx.node, req=ctx.no)
+        return R(error_code=code) if ctx.v < 1 else R(throttle_time_ms=0, error_code=code)
+
+    # ---- coordinator fail-over ---------------------------------------------------------------------------
+    def failover(self, gid, node_id, *, keep_state=True):
+        """the group's coordinator moves to node_id; offsets always survive (they live in
+        __consumer_offsets); membership survives only if keep_state"""
+        g = self.group(gid)
+        self.c.move_coordinator(0, gid, node_id)
+        for m in g.members.values():
+            if m.timer is not None:
+                m.timer.cancel()
+            m.join_ctx = m.sync_ctx = None
+        if not keep_state:
+            g.members.clear()
+            g.state, g.leader, g.protocol = "Empty", None, None
+            g.generation += 1
+            if g.join_timer is not None:
+                g.join_timer.cancel()
+        else:
+            for m in g.members.values():
+                self._touch(g, m)
+            if g.state in ("PreparingRebalance", "CompletingRebalance"):
+                # pending barrier is lost with the old coordinator: members must rejoin
+                g.state = "Stable" if g.state == "CompletingRebalance" and False else g.state
+                if g.state == "PreparingRebalance":
+                    self._prepare_rebalance(g)
+        self.log.emit("GroupFailover", group=gid, node=node_id, keep=keep_state, gen=g.generation, state=g.state)
